@@ -203,6 +203,24 @@ def run(ctx):
     if "CallbackNeverSkipped" not in rw_.violated:
         raise env.MachineryError("SyncFacade witness not reached")
     del EAGER_LOGS[:]
+    # spec -> code: the witness behaviour (FinalA with no hook installed, then the constructor) on the real blocking
+    # client and the bundled simulator: the connection is started first, as get_facade() does, and the facade is
+    # constructed only after the engine has completed it.  Recorded, not judged (see DESIGN section 5, observations)
+    try:
+        from ..sessions import ThreadedSession
+        with ThreadedSession(facade_first=False) as ts:
+            for _ in range(800):
+                ts.pump(1)
+                if ts.spa.is_connected:
+                    break
+            spa_conn = bool(ts.spa.is_connected)
+            f_late = ts.make_facade()
+            for _ in range(300):
+                ts.pump(1)
+            ev.cov["late_hook_witness"] = {"spa_connected_before_the_facade_existed": spa_conn,
+                                           "facade_connected_300_engine_iterations_later": bool(f_late.is_connected)}
+    except Exception as e:  # noqa
+        ev.cov["late_hook_witness"] = {"not_run": type(e).__name__}
     from geckolib.const import GeckoConstants as C
     # the device classes the property speaks of (pumps P1..P5 and Waterfall, the blower, the lights), as of the
     # audited commit; keys the library's table has gained since are taken from the live table, keys it has LOST or
